@@ -208,5 +208,9 @@ func zzGraph(pBound, t int, fixed bool) {
 		bad.Wait = append(append(append([]string{}, known[:at]...), "nosuch"), known[at:]...)
 		nd.Assert(r.Run(bad) != nil, "C14/unknown-prerequisite-refused")
 	}
+	// refused submissions leave nothing behind: waiting on the manager still
+	// returns (a hang is reported as a deadlock) with the same verdict
+	werr2 := mgr.Wait()
+	nd.Assert((werr2 != nil) == (werr != nil), "C14/wait-after-refused-submission-same-verdict")
 	nd.Reach("C14/graph-end")
 }
